@@ -1,3 +1,5 @@
+import zlib
+
 from inspect import getmodule
 from collections import abc
 from pathlib import Path
@@ -169,10 +171,14 @@ class Experiment:
 
         CobaContext.logger.log("Experiment Started")
 
-        if result_file and Path(result_file).exists() and ".gz" not in result_file:
-            #An interrupted run can leave a last record without its line end. We remove it
-            #so it isn't restored and the next record we write doesn't end up on its line.
-            self._drop_unfinished_line(result_file)
+        if result_file and Path(result_file).exists():
+            #An interrupted run can leave a last record without its line end (or, in a gz file, a last
+            #gzip member without its end). We remove it so it isn't restored and the next record we write
+            #doesn't end up on its line (or behind a gzip member that can't be read).
+            if ".gz" in result_file:
+                self._drop_unfinished_member(result_file)
+            else:
+                self._drop_unfinished_line(result_file)
 
         if result_file and Path(result_file).exists() and Path(result_file).stat().st_size > 0:
             CobaContext.logger.log("Restoring Results")
@@ -227,6 +233,21 @@ class Experiment:
                     return
                 pos = start
             f.truncate(0)
+
+    def _drop_unfinished_member(self, path:str) -> None:
+        #cut a gz file back to the complete gzip members at its start (every record is its own member)
+        with open(path,'rb+') as f:
+            size,unzip,data = 0,zlib.decompressobj(wbits=31),f.read(2**16)
+            while data:
+                try:
+                    unzip.decompress(data)
+                except zlib.error:
+                    break
+                data = unzip.unused_data
+                if unzip.eof:
+                    size,unzip = f.tell()-len(data),zlib.decompressobj(wbits=31)
+                data = data or f.read(2**16)
+            if size != f.seek(0,2): f.truncate(size)
 
     def _parse_init_args(self,*args,**kwargs) -> Tuple[Sequence[Tuple[Environment,Learner]], Evaluator, Optional[str]]:
         #we know this with 100% certainty
